@@ -91,14 +91,15 @@ claim('C07', 'proof',
       'DESIGN.md section 5 C07')
 
 claim('C08', 'proof',
-      'Lean 4 theorems C08_* about the exact-rational model of the weights, score_trajectory (MSE/MAE) and the scorer '
+      'Lean 4 theorems C08_* about the exact-rational model of the weights, score_trajectory (MSE / MAE / MAPE and the '
+      'greater-is-better metrics r2 / explained_variance with best value 1: C08_goodness_perfect, C08_goodness_le_one) and the scorer '
       'wiring: weight gamma^k on step k, zero beyond n_steps, IC rows stripped; perfect prediction has error 0 and no '
       'prediction has negative error (so 0 is the best score); finite error_score is a floor; non-finite -> error_score '
       'or raise. The multistep scorer misalignment is a theorem about the model (closed witness, decide +kernel) and a '
       'KNOWN-FINDING on the code. Correspondence: weights, scores, error behaviour and make_scorer outputs compared '
       'with exact rational arithmetic (1e-11).',
-      'Lean kernel + standard axioms + Mathlib ordered-field lemmas for Rat; metrics other than MSE/MAE are passed '
-      'through to scikit-learn (trusted); known finding F-score: make_scorer(multistep=True) compares prediction k with '
+      'Lean kernel + standard axioms + Mathlib ordered-field lemmas for Rat; the two metrics that are not rational functions '
+      '(median absolute error, squared log error) are passed through to scikit-learn (trusted); known finding F-score: make_scorer(multistep=True) compares prediction k with '
       'truth k+1 (cannot be repaired: stored regression values pin it).',
       'Lean 4 proof over exact rationals + correspondence; closed counter-example witness for the known finding',
       'DESIGN.md section 5 C08')
@@ -165,7 +166,10 @@ claim('C06', 'proof',
       'Lean 4 theorems C06_* over Matrix R: cost(V) - cost(U) = |(V-U)Psi|^2 + alpha |V-U|^2 for any solution U of the '
       'normal equations, hence optimality for every alpha >= 0, uniqueness (alpha > 0 / invertible Gram), harmless 1/q '
       'scaling, exact recovery on noise-free data with invertible Psi Psi^T, and the untruncated DMDc / DMD SVD formula '
-      'solving the same equations; certificate theorem: what the exact-rational driver prints satisfies U H = G in Q. '
+      'solving the same equations; certificate theorem: what the exact-rational driver prints satisfies U H = G in Q; '
+      'for EVERY data set: the normal equations are solvable (rank-deficient Psi with alpha = 0 included), a least-squares '
+      'solution of a consistent system is exact, so whatever least-squares solution lstsq returns in Edmd._fit_regressor '
+      'minimises the documented cost (C06_edmd_lstsq_optimal, in the code\'s H, G, q). '
       'Correspondence: Edmd.coef_ (both call forms, single/multi episode, tall/square/wide) vs the certified rational '
       'solution.',
       'Lean kernel + standard axioms + Mathlib Matrix; scipy.linalg.lstsq / LinearRegression / LAPACK SVD are trusted and '
@@ -225,12 +229,14 @@ claim('C12', 'proof',
       'DESIGN.md section 5 C12')
 claim('C13', 'other',
       'Lean 4 theorems C13_* over Matrix C about the formula A_r = V Lambda V^+: eigenpairs, every mode a non-zero '
-      'eigenvector, rank <= number of modes, projected modes give Q A~ Q^H, non-zero spectrum contained in the reported '
-      'eigenvalues. No exact executable model exists for LAPACK factors, so the tie to the code is a numeric validation '
+      'eigenvector, rank <= number of modes, projected modes give Q A~ Q^H, characteristic polynomial x^(n-r) prod (x - lambda_i) '
+      '(non-zero spectrum with multiplicities), and for conjugate-closed eigenpairs the reconstruction with the Moore-Penrose '
+      'left inverse is a REAL matrix, so real(..) keeps the published eigenpairs (C13_reconstruction_real, C13_real_part_eigpairs). No exact executable model exists for LAPACK factors, so the tie to the code is a numeric validation '
       'of the hypotheses (left-invertible modes) and of every conclusion (eigenpair residual, rank, spectrum equality, '
       'real coef_) on the fitted attributes of Dmd / Dmdc for every mode type and truncation rule.',
-      'scipy.linalg.eig / lstsq / svd trusted and validated; conjugate-closure of the eigenpairs (real(..) loses nothing) '
-      'validated numerically, not proved; multiplicities not proved.',
+      'scipy.linalg.eig / lstsq / svd trusted and validated; that LAPACK returns conjugate-closed, linearly independent '
+      'eigenpairs (the hypotheses of the theorems) is validated numerically on every fit and counted in the evidence, not proved; '
+      'known finding F-defective (linearly dependent modes of a defective reduced operator).',
       'Lean 4 theorems about the reconstruction formula + numeric validation of hypotheses and conclusions on the implementation',
       'DESIGN.md section 5 C13')
 claim('C17', 'other',
